@@ -67,10 +67,25 @@ def expand_includes(text, base):
     return "\n".join(out)
 
 
-def parse_template(text):
+def apply_variant(text, variant):
+    """Lines `//@|?NAME <text>` belong to the finding-probe variant NAME of a unit: they are kept (as `//@| <text>`)
+    only when that variant is built and dropped otherwise."""
+    out = []
+    for ln in text.split("\n"):
+        m = re.match(r"(\s*)//@\|\?([\w-]+) ?(.*)$", ln)
+        if m:
+            if variant == m.group(2):
+                out.append(m.group(1) + "//@| " + m.group(3))
+            continue
+        out.append(ln)
+    return "\n".join(out)
+
+
+def parse_template(text, variant=None):
     """-> list of ('text', str) | ('item', dict)"""
     out = []
     text = expand_includes(text, os.path.dirname(os.path.dirname(os.path.abspath(__file__))))
+    text = apply_variant(text, variant)
     lines = text.split("\n")
     i = 0
     buf = []
@@ -86,7 +101,7 @@ def parse_template(text):
             if len(parts) != 3:
                 raise SystemExit(f"template: bad directive: {s}")
             d = dict(kind=m.group(1), file=parts[0], container=parts[1], name=parts[2],
-                     ret=None, subs=[], loops={}, hints=[], spec=[], prologue=[], keepattr=False, nobody=False,
+                     ret=None, subs=[], loops={}, hints=[], spec=[], prologue=[], tags=[], keepattr=False, nobody=False,
                      line=i + 1)
             cur = None
             i += 1
@@ -120,6 +135,10 @@ def parse_template(text):
                     d["hints"].append((mm.group(1), mm.group(2), cur))
                 elif s.startswith("//@spec"):
                     cur = d["spec"]
+                    tags = re.findall(r"@C\d+", s)
+                    d["tags"] = tags
+                    if tags:
+                        cur.append("// @default " + " ".join(tags))
                 elif s.startswith("//@prologue"):
                     cur = d["prologue"]
                 elif s.startswith("//@keepattr"):
@@ -490,15 +509,18 @@ class Extractor:
             text = make_fields_pub(text, kind, log)
             if not re.match(r"\s*(#\[[^\]]*\]\s*)*pub\b", text):
                 text = re.sub(r"^(\s*(?:#\[[^\]]*\]\s*)*)(struct|enum|trait|type|const)\b", r"\1pub \2", text, count=1)
-        return text, dict(kind=kind, file=d["file"], container=d["container"], name=d["name"],
+        has_body = it.body_open is not None and not d["nobody"]
+        return text, dict(kind=kind, file=d["file"], container=d["container"], name=d["name"], has_body=has_body,
                           src_line=line, src_bytes=len(raw), rules=log,
-                          has_spec=bool(d["spec"]), n_spec_lines=len([l for l in d["spec"] if l.strip()]),
+                          has_spec=bool(d["spec"]), n_spec_lines=len([l for l in d["spec"] if l.strip() and not l.strip().startswith("//")]),
+                          tags=sorted(set(d["tags"]) | set(t for l in d["spec"] for t in re.findall(r"@C\d+", l))),
+                          default_tags=d["tags"],
                           n_loops=len(d["loops"]), n_hints=len(d["hints"]))
 
 
-def build(template_path, repo, out_path, expanded=None):
+def build(template_path, repo, out_path, expanded=None, variant=None):
     tmpl = open(template_path, encoding="utf-8").read()
-    parts = parse_template(tmpl)
+    parts = parse_template(tmpl, variant)
     ex = Extractor(repo, expanded)
     out = []
     items = []
